@@ -1,8 +1,11 @@
 // E-PURE white-box harness for C06: the real quick_sort_range (split constructor, median_of_three,
-// pseudo_median_of_nine, is_divisible) and quick_sort_pretest_body, one operation per input line.
+// pseudo_median_of_nine, is_divisible), quick_sort_pretest_body and parallel_quick_sort (serial probe + pretest,
+// op `pqs`, on one thread with a comparator that records its calls), one operation per input line.
 // Compiled with -fno-access-control against /repo's current headers.
 #include <oneapi/tbb/parallel_sort.h>
 #include <oneapi/tbb/task_group.h>
+#include <oneapi/tbb/task_arena.h>
+#include <oneapi/tbb/global_control.h>
 #include <cstdio>
 #include <iostream>
 #include <sstream>
@@ -35,6 +38,22 @@ static bool parse_cmp(const std::string& w, Cmp& c) {
     if (w.rfind("mod", 0) == 0 && num(w.substr(3), v) && v) { c = {3, v}; return true; }
     return false;
 }
+
+// parallel_quick_sort on (key, original index) pairs with a key-projection comparator that records the index pairs
+// it is called with, in call order (single thread: the serial probe's comparisons come first, then the pretest's)
+struct PItem { u64 key; long idx; };
+static std::vector<std::pair<long, long>> g_trace;
+static const size_t TRACE_CAP = 24;
+static u64 g_nonadj = 0;
+struct PCmp {
+    Cmp c;
+    bool operator()(const PItem& a, const PItem& b) const {
+        if (g_trace.size() < TRACE_CAP) g_trace.push_back({a.idx, b.idx});
+        long d = a.idx - b.idx;
+        if (d != 1 && d != -1) ++g_nonadj;
+        return c(a.key, b.key);
+    }
+};
 
 static bool read_arr(std::istringstream& in, std::vector<u64>& a) {
     size_t n; if (!(in >> n)) return false;
@@ -81,6 +100,31 @@ int main() {
             std::vector<u64> a; if (!read_arr(in, a) || a.empty()) { std::puts("bad-op"); continue; }
             QR r(a.data(), a.size(), c);
             std::printf("%zu\n", r.pseudo_median_of_nine(a.data(), r));
+        } else if (op == "pqs") {
+            // pqs <cmp> <n> a0 … : the real parallel_quick_sort (serial probe + parallel pretest + quicksort) on one thread.
+            // output: skipped=<1 iff nothing was moved and only adjacent pairs were compared> sorted=<0|1> perm=<0|1> first=<first unsorted index>
+            //         trace=<first comparisons as i:j (indices of the first and second argument)>
+            std::vector<u64> a; if (!read_arr(in, a) || a.size() < 16) { std::puts("bad-op"); continue; }
+            std::vector<PItem> v(a.size());
+            for (size_t i = 0; i < a.size(); ++i) v[i] = PItem{a[i], (long)i};
+            g_trace.clear(); g_nonadj = 0;
+            PCmp pc{c};
+            {
+                tbb::global_control gc(tbb::global_control::max_allowed_parallelism, 1);
+                tbb::task_arena arena(1);
+                arena.execute([&] { tbb::detail::d1::parallel_quick_sort(v.data(), v.data() + v.size(), pc); });
+            }
+            bool moved = false, perm = true;
+            long first = -1;
+            std::vector<unsigned char> seen(a.size(), 0);
+            for (size_t i = 0; i < v.size(); ++i) {
+                if (v[i].idx != (long)i) moved = true;
+                if (v[i].idx < 0 || (size_t)v[i].idx >= a.size() || seen[v[i].idx] || a[v[i].idx] != v[i].key) perm = false; else seen[v[i].idx] = 1;
+                if (i && first < 0 && c(v[i].key, v[i - 1].key)) first = (long)i;
+            }
+            std::printf("skipped=%d sorted=%d perm=%d first=%ld trace=", (!moved && g_nonadj == 0) ? 1 : 0, first < 0 ? 1 : 0, perm ? 1 : 0, first);
+            for (size_t i = 0; i < g_trace.size(); ++i) std::printf("%s%ld:%ld", i ? "," : "", g_trace[i].first, g_trace[i].second);
+            std::puts("");
         } else if (op == "pretest") {
             size_t lo, hi; if (!(in >> lo >> hi)) { std::puts("bad-op"); continue; }
             std::vector<u64> a; if (!read_arr(in, a) || !(1 <= lo && lo <= hi && hi <= a.size())) { std::puts("bad-op"); continue; }
